@@ -44,7 +44,7 @@ theorem driverStep_call {file : Bytes} {w ncols : Nat} {im : List Nat} {hrow : L
       | .error err => .error err
       | .ok o => afterKernel ncols im s (readWindow file (bnd hrow rows q) w) (bnd hrow rows e - bnd hrow rows q) o := by
   rw [driverStep_eq]
-  rcases hinv.win with ⟨hif, hvf, heq⟩ | ⟨hfull, _, hcontent, hstart⟩
+  rcases hinv.win with ⟨hif, hvf, heq⟩ | ⟨hfull, _, hcontent, hstart, _⟩
   · have hslice : ((slice file (bnd hrow rows q) (bnd hrow rows q + w)).length == 0) = false := by
       apply beq_false_of_ne
       simp [slice]
